@@ -1,4 +1,4 @@
-"""Failing inputs for the findings F1..F15, run against the real code (not part of any check).
+"""Failing inputs for the findings F1..F19 (F18 is open), run against the real code (not part of any check).
 usage: /venv/bin/python findings/repro.py     -> prints DEFECT / ok per finding"""
 import signal, sys
 from fractions import Fraction as F
@@ -145,7 +145,39 @@ def f15():
     return True if r[0][0] == 2**70 else f"got {r[0][0]}"
 
 
-for i, fn in enumerate([f1, f2, f3, f4, f5, f6, f7, f8, f9, f10, f11, f12, f13, f14, f15], 1):
+def f16():
+    C = Curve([0, 0, 0, F(1, 2), 1, 1, 1], [F(1), F(2), F(0), F(3)])
+    C.weights = [F(1), F(2), F(1), F(3)]
+    left, right = C.split([F(1, 4)])
+    return True if left(F(1, 8)) == C(F(1, 8)) and right(F(5, 8)) == C(F(5, 8)) else f"piece(1/8) = {left(F(1, 8))}, curve(1/8) = {C(F(1, 8))}"
+
+
+def f17():
+    J = Curve([0, 0, 1, 1], [F(0), F(1)]) | Curve([1, 1, 2, 2], [F(5), F(6)])
+    return True if J(F(3, 2)) == F(11, 2) else f"(A|B)(3/2) = {J(F(3, 2))}, B(3/2) = 11/2"
+
+
+def f18():
+    from compmec.nurbs.calculus import Integrate
+
+    a = Curve([0, 0, 0, F(1, 10), 1, 1, 1], [F(1), F(5), F(-2), F(3)])
+    b = Curve([0, 0, 0, 1, 1, 1])
+    b.fit_curve(a)
+    res = a - b
+    worst = max(abs(Integrate.scalar(res * Curve([0, 0, 0, 1, 1, 1], [F(int(i == j)) for j in range(3)]))) for i in range(3))
+    return True if worst < 1e-12 else f"residual of fit_curve is not L2-orthogonal to the target basis on non-uniform knots: max |<r, N_i>| = {float(worst):.3g}"
+
+
+def f19():
+    c = Curve([0, 0, 1, 2, 2], [F(1), F(2), F(4)])
+    try:
+        c.knot_insert([0, 2])
+    except ValueError:
+        pass
+    return True if c.ctrlpoints is not None and tuple(c.knotvector) == (0, 0, 1, 2, 2) else f"after the refused knot_insert([0, 2]): knotvector {tuple(c.knotvector)}, ctrlpoints {c.ctrlpoints}"
+
+
+for i, fn in enumerate([f1, f2, f3, f4, f5, f6, f7, f8, f9, f10, f11, f12, f13, f14, f15, f16, f17, f18, f19], 1):
     if len(sys.argv) > 1 and f"F{i}" not in sys.argv[1:]:
         continue
     t(f"F{i}", fn)
